@@ -15,6 +15,7 @@ import DimModel.Lib.Dataset
 import DimModel.Lib.Interp
 import DimModel.Lib.OnDisk
 import DimModel.Lib.Heap
+import DimModel.Lib.DatasetOps
 open Lean
 namespace DimModel.Driver
 open DimModel.Codec
@@ -84,6 +85,16 @@ def encArrObs : Option Heap.ArrObs → Json
       ("axes", Json.arr (o.axes.map fun ax => Json.mkObj [("name", Json.str ax.name), ("labels", encInts ax.labels),
           ("attrs", encAVals ax.attrs)]).toArray),
       ("attrs", encAVals o.attrs)]
+
+
+/-! Dataset operations by value (C14) -/
+def encDs (ds : DSV.Ds Cell) : Json :=
+  Json.mkObj [("keys", Json.arr (ds.keys.map Json.str).toArray), ("dims", Json.arr (ds.dims.map Json.str).toArray),
+    ("axes", Json.arr (ds.axes.map encAxis).toArray),
+    ("vars", Json.mkObj (ds.vars.map fun kv => (kv.1, encDimArray kv.2))), ("attrs", encAttrs ds.attrs)]
+
+def scalarArr (c : Cell) (vk : Kind) (attrs : Attrs) : DimArray Cell :=
+  { axes := [], vals := { shape := [], get := fun _ => c }, vkind := vk, attrs := attrs }
 
 /-- one step of an operation chain applied to an array (C10, C11, C05 histories) -/
 def applyStep (a : DimArray Cell) (st : Json) : P (Except Err (DimArray Cell)) := do
@@ -405,6 +416,35 @@ def handle (op : String) (req : Json) : P (List (String × Json)) := do
       st := Heap.step st op
       out := out ++ [Json.arr (st.obs.map encArrObs).toArray]
     pure [("lib", Json.arr out.toArray)]
+  | "ds_op" => do
+    -- C14: a Dataset built variable by variable, then one Dataset-level operation
+    let as ← arrays req
+    let keys ← listOf str (← fld req "keys")
+    let dsattrs ← attrs (fldD req "attrs" (Json.arr #[]))
+    let name ← str (← fld req "dim")
+    let fn ← str (← fld req "fn")
+    let labels ← listOf label (fldD req "labels" (Json.arr #[]))
+    let nk ← kind (fldD req "newkind" (Json.str "f"))
+    let fk ← kind (fldD req "fillkind" (Json.str "f"))
+    let i ← optOf ix (fldD req "ix" Json.null)
+    let cfg ← indexCfg (fldD req "cfg" (Json.mkObj []))
+    let built := (keys.zip as).foldlM (fun (ds : DSV.Ds Cell) kv => DSV.setItem ds kv.1 kv.2) {}
+    let r : Except Err (DSV.Ds Cell) := built.bind fun ds0 =>
+      let ds : DSV.Ds Cell := { ds0 with attrs := dsattrs }
+      match fn with
+      | "sort_axis" => DSV.sortAxisDs ds name
+      | "take_axis" => DSV.takeAxisLabel ds name labels false
+      | "reindex_axis" => DSV.reindexAxisDs ds name labels nk Cell.fill fk
+      | "take" => (match i with
+          | some i => DSV.takeDs ds name i cfg
+          | none => .error .other)
+      | "reduce" =>
+        DSV.applyAxis Cell.nan ds name fun v =>
+          (Lib.reduceAxis Cell.red v (.one (.name name))).map fun x => match x with
+            | .inl c => scalarArr c v.vkind v.attrs
+            | .inr a => a
+      | _ => .error .other
+    pure [("lib", encExcept encDs r)]
   | _ => throw s!"unknown op {op}"
 
 def answer (line : String) : String :=
